@@ -1,6 +1,7 @@
 import SnaxVerif.Drv.Basic
 import SnaxVerif.Model.CyclicLayout
 import SnaxVerif.Model.CyclicLayoutMaps
+import SnaxVerif.Model.CyclicLayoutGlobal
 namespace SnaxVerif.Drv.C09
 open Lean SnaxVerif SnaxVerif.Drv SnaxVerif.CyclicLayout
 
@@ -78,7 +79,36 @@ def rewriteMaps : Handler := fun j => do
   | .error e => return Json.mkObj [("raised", Json.str (errName e))]
   | .ok r => return Json.mkObj [("layouts", jOpt (jList layoutToJson) r)]
 
+/-- args: {"layout": tile layout, "gshape": [nat]} -> {"layout": layout | null} | {"raised": name}
+(`ApplyLayoutCastSubviewGlobal`: layout of the whole global) -/
+def globalH : Handler := fun j => do
+  let l ← layoutOfJson (← field j "layout")
+  let g ← listOf nat (← field j "gshape")
+  match globalLayout l g with
+  | .error e => return Json.mkObj [("raised", Json.str (errName e))]
+  | .ok r => return Json.mkObj [("layout", jOpt layoutToJson r)]
+
+/-- `set-memory-layout` followed by `ApplyLayoutCastSubviewGlobal` for operand 0 (a tile of a global of
+shape `gshape`): args of `rewritemaps` + "gshape" -> {"layouts", "global"} | {"raised"} -/
+def opGlobal : Handler := fun j => do
+  let fixed ← bool (← field j "fixed")
+  let tiled ← bool (← field j "tiled")
+  let spatial ← optOf nat (← field j "spatial")
+  let bounds ← listOf int (← field j "bounds")
+  let ops ← listOf operandMOfJson (← field j "ops")
+  let g ← listOf nat (← field j "gshape")
+  match rewriteOpMaps fixed tiled spatial bounds ops with
+  | .error e => return Json.mkObj [("raised", Json.str (errName e))]
+  | .ok none => return Json.mkObj [("layouts", Json.null), ("global", Json.null)]
+  | .ok (some ls) =>
+    match ls with
+    | [] => return Json.mkObj [("layouts", jList layoutToJson ls), ("global", Json.null)]
+    | l0 :: _ =>
+      match globalLayout l0 g with
+      | .error e => return Json.mkObj [("raised", Json.str (errName e))]
+      | .ok r => return Json.mkObj [("layouts", jList layoutToJson ls), ("global", jOpt layoutToJson r)]
+
 def handlers : List (String × Handler) :=
-  [("c09.rewrite", rewrite), ("c09.rewritemaps", rewriteMaps), ("c09.addr", addrPts), ("c09.canon", canonH), ("c09.ensure", ensureH)]
+  [("c09.global", globalH), ("c09.opglobal", opGlobal), ("c09.rewrite", rewrite), ("c09.rewritemaps", rewriteMaps), ("c09.addr", addrPts), ("c09.canon", canonH), ("c09.ensure", ensureH)]
 
 end SnaxVerif.Drv.C09
